@@ -92,6 +92,9 @@ impl WorldB {
         }
         match fam {
             "handshake" => {
+                if adv >= 2 && rng.chance(1, 30) {
+                    return Op::new(K_CROSSRESP, rng.below(8), rng.below(64), 0, rng.below(7));
+                }
                 w[0] = 5;
                 w[10] = 2;
                 w[18] = 1;
